@@ -76,7 +76,7 @@ func groupsFor(tier string) []groupDef {
 	for _, b := range bigGroups(tier) {
 		gs = append(gs, groupDef{name: fmt.Sprintf("big-struct/n=%d/%s", b.n, b.variant), kind: "big", n: b.n, variant: b.variant})
 	}
-	gs = append(gs, groupDef{name: "req/no_body_struct", kind: "nobody"}, groupDef{name: "text-codec", kind: "text"})
+	gs = append(gs, groupDef{name: "req/no_body_struct", kind: "nobody"}, groupDef{name: "req/two-level", kind: "twolevel"}, groupDef{name: "resp/nested-annotations", kind: "respnested"}, groupDef{name: "text-codec", kind: "text"})
 	scopeMemo[tier] = gs
 	return gs
 }
@@ -119,6 +119,10 @@ func (check) Enumerate(tier string, seed int64, group int, yield func(core.Case)
 		enumText(g, tier, yield)
 	case "nobody":
 		enumNoBody(g, tier, yield)
+	case "twolevel":
+		enumTwoLevel(g, tier, yield)
+	case "respnested":
+		enumRespNested(g, tier, yield)
 	}
 }
 
